@@ -122,3 +122,8 @@ Definition check_phasor (t : term) (P : qci) (cc sc : Qc) : bool :=
   qc_eqb (sinusoid (K:=QcF) (t_f t) (t_A t) (cosq (t_k t)) (sinq (t_k t)) 0%Qc 1%Qc) sc &&
   check_time P cc sc.
 Definition check_srcP (w : Qc) (d : srcdesc) (P : qci) : bool := qci_eqb (src_P w d) P.
+
+(* frequency response read-out of H = transfer(..): real/imag parts, magnitude^2, magnitude e^{j phase},
+   10^(dB/10) - through H(jomega) evaluated at omega = w and through the constant H(j w) *)
+Definition check_fresp (H : qci) (re_ im_ mag2 : Qc) (polar : qci) (db10 : Qc) : bool :=
+  qci_eqb (QI re_ im_) H && qc_eqb (gen_mag_num_sq (K:=QcF) (re H) (im H)) mag2 && qci_eqb polar H && qc_eqb db10 mag2.
